@@ -219,13 +219,16 @@ reg(PoolCheck(
 ))
 
 reg(PoolCheck(
-    "C09", P(w={"reject": 12, "lock": 4, "unlock": 4, "gac": 1.5, "apply": 5, "map": 5, "start": 5}, named=0.6, final_gac=0.7),
+    "C09", P(w={"reject": 12, "lock": 4, "unlock": 4, "gac": 1.5, "apply": 5, "map": 5, "start": 5, "set_size": 3, "ctor_neg": 0.7, "open": 3}, named=0.6, final_gac=0.7,
+             size_track=True, gate=0.45),
     "random histories in which every spawning method is called with each rejection cause and combinations (locked, closed, five kinds of non-coroutine functions, "
-    "num_concurrent<1, duplicate live name) on idle/busy/closed/closed-then-unlocked pools, with a public-state snapshot around every rejected call; "
+    "num_concurrent<1, duplicate live name, negative pool size on constructor and setter incl. over-subscribed pools) on idle/busy/closed/closed-then-unlocked pools, "
+    "with a public-state snapshot around every rejected call; "
     "non-trivial = the pool was busy at rejection time; distinct by signature",
     lambda s: s.get("C09.reject_busy", 0) > 0,
     6000, 240000,
-    floors={"C09.reject": 5000, "C09.reject_busy": 500, "C09.multi_cause": 200, "C09.accept_after_unlock": 300},
+    floors={"C09.reject": 5000, "C09.reject_busy": 500, "C09.multi_cause": 200, "C09.accept_after_unlock": 300,
+            "C09.cause.pool_size.ValueError": 100, "C09.cause.ctor.ValueError": 50},
 ))
 
 reg(PoolCheck(
@@ -253,7 +256,7 @@ reg(PoolCheck(
     "and flush/gather_and_close observed it; distinct by signature",
     lambda s: s.get("end.raise", 0) > 0 and (s.get("C12.flush_raised_injected") or s.get("C12.gac_raised_injected") or s.get("C12.flush_rex_ok")),
     6000, 240000, level="fault_enumeration",
-    floors={"C12.flush_raised_injected": 100, "C12.flush_rex_ok": 300, "end.raise": 3000},
+    floors={"C12.flush_raised_injected": 100, "C12.flush_rex_ok": 300, "end.raise": 3000, "C12.capacity_ok_after_faults": 500, "C12.others_complete_ok": 500},
 ))
 
 reg(PoolCheck(
